@@ -57,6 +57,13 @@ func runC09(c *Ctx) {
 				rootY, _, _ := accessPath(info, be.Y)
 				rhsIsCfg := rootY == recv && recv != nil
 				want, known := opTok[word]
+				if !lhsIsRule && (be.Op == token.EQL || be.Op == token.NEQ) {
+					// == and != are symmetric: accept the configured duration on the left
+					rootX, _, _ := accessPath(info, be.X)
+					if objOf(info, be.Y) == param && rootX == recv && recv != nil {
+						lhsIsRule, rhsIsCfg = true, true
+					}
+				}
 				c.Check(known && lhsIsRule && rhsIsCfg && be.Op == want, "C09-R1", "isMatch:operator "+strq(word), be.Pos(), "rule duration "+be.Op.String()+" configured duration",
 					"operator "+strq(word)+" is implemented as `"+exprStr(be)+"`")
 			}
